@@ -16,16 +16,10 @@ Gate 3 (model vs implementation, `pdriver enc cmp_*`): the Lean model recomputes
         and every stored seed of GLWE / GGLWE / GGSW objects from (secret, plaintext, top stream, Source::new
         table, errors); must equal the implementation limb for limb.
 """
-import os
-import re
-
 from . import common  # noqa: F401
-from .common import REPO
 from .enclib import BES, bits_of, parse_answer, parse_col, parse_cols, target_limb_and_scale
 
 LAYOUTS = ["glwe", "gglwe", "ggsw", "ksk", "atk", "tsk", "g2g"]
-G2G_SEEDS_KEY = "gglwe_to_ggsw_key_compressed_encrypt_sk:seeds-written-to-clone"
-G2G_IMPL_KEY = "GGLWEToGGSWKeyDecompress:no-impl-for-Module"
 
 
 def gen_case(rng, idx):
@@ -87,15 +81,6 @@ def model_line(i, c, a):
             f"seeds={a['seeds']} child={a['child']} es={err_polys(a['e'], limb)}")
 
 
-def source_has_g2g_decompress_impl():
-    path = os.path.join(REPO, "poulpy-core", "src", "layouts", "compressed", "gglwe_to_ggsw_key.rs")
-    try:
-        txt = open(path).read()
-    except OSError:
-        return True
-    return re.search(r"impl\s*<[^>]*>\s*GGLWEToGGSWKeyDecompress\s+for\s+Module", txt) is not None
-
-
 def run(ctx):
     rng = ctx.rng
     quick = ctx.tier == "quick"
@@ -112,11 +97,6 @@ def run(ctx):
     if drv is None:
         broken.append("model driver does not build")
     witness = None
-    g2g_witness = None
-    if not source_has_g2g_decompress_impl():
-        ctx.violation("GGLWEToGGSWKeyDecompress has no implementation for Module<B>: a compressed GGLWE->GGSW key cannot be decompressed through the public API",
-                      {"site": "poulpy-core/src/layouts/compressed/gglwe_to_ggsw_key.rs", "expected": "impl<B: Backend> GGLWEToGGSWKeyDecompress for Module<B> where Self: GGLWEDecompress {}"},
-                      True, key=G2G_IMPL_KEY)
     if binp and drv:
         ncases = 616 if quick else 6000
         cases = [gen_case(rng, i) for i in range(ncases)]
@@ -147,10 +127,7 @@ def run(ctx):
                     w = {"case": hl[i], "implementation": line[:300],
                          "oracle": f"cells={cells} masks={a['masks']} phases-equal={a['dec']} cellenc={a['cellenc']} ser={a['ser']} seeds-in-loop-order={a['seedwords']}",
                          "rerun": f"printf '%s\\n' '{hl[i]}' | harness/target/release/pvh cmp"}
-                    if lay == "g2g":
-                        g2g_witness = g2g_witness or w
-                    else:
-                        witness = witness or w
+                    witness = witness or w
                 if lay in ("glwe", "gglwe", "ggsw"):
                     ml.append(model_line(i, c, a))
                     idx.append(i)
@@ -181,9 +158,6 @@ def run(ctx):
             ctx.cov["objects_by_layout"] = per_layout
             ctx.cov["cells_total"] = cells_total
             ctx.cov["by_backend"] = {be: sum(1 for c in cases if c["be"] == be) for be in BES}
-    if g2g_witness is not None:
-        ctx.violation("GGLWEToGGSWKeyCompressed: seeds written to a clone, stored seeds stay zero, decompressed key is not an encryption of the tensor secret",
-                      g2g_witness, True, key=G2G_SEEDS_KEY)
     if witness is not None:
         ctx.violation("a decompressed cell differs from the standard encryption of its plaintext under the stored seed", witness, True)
     elif broken:
